@@ -82,9 +82,21 @@ def run_case(cs, ctx):
     nsolve = 0
     repeated_getter = False
     pending = None     # facts of the current epoch, completed at its end
+    limits_used = []
     import datetime as _dtmod
     real_dt = _dtmod.datetime
     use_limit = (not bf) and rng.random() < 0.3
+    limit_mix = (not bf) and (not use_limit) and rng.random() < 0.2
+    if limit_mix:
+        # every solve of the history gets its own time limit: none, generous, or far too small for CBC
+        ctx.cnt('histories_with_a_different_time_limit_per_solve')
+        ref_feasible = None
+        try:
+            rf = en.reference(spec, opts)
+            if rf['enumerable']:
+                ref_feasible = bool(rf['feasible'])
+        except Exception:
+            pass
     solve_kw_mode = rng.choice([0, 0, 0, 0, 1, 2, 3])
     if solve_kw_mode:
         ctx.cnt('histories_with_solve_keyword_arguments')
@@ -104,6 +116,7 @@ def run_case(cs, ctx):
         if pending is None:
             return True
         facts, k = pending['facts'], pending['nsolve']
+        tiny = pending.get('tiny')
         try:
             txt = s.get_results()
         except Exception as e:
@@ -138,6 +151,18 @@ def run_case(cs, ctx):
                     return False
                 facts['vec'] = rm.value_vector(m, steps)
         log.append(('epoch_end', facts.get('status', 'bf')))
+        if tiny:
+            # a solve under a limit far too small may end either way; only the getter idempotence was judged
+            ctx.cnt('epochs_with_tiny_time_limit')
+            return True
+        if limit_mix and ref_feasible is not None:
+            want = 'Optimal' if ref_feasible else 'Infeasible'
+            ctx.cnt('statuses_after_mixed_limits_judged')
+            if facts.get('status') != want:
+                ctx.finding(en.F('C18', 'resolve_reproducible', 'solve #%d (time limit %s, earlier solves of the same object used other limits: %s) '
+                                 'shows status %r; the instance is %s' % (k, pending.get('limit'), limits_used[:-1], facts.get('status'),
+                                                                       'feasible' if ref_feasible else 'infeasible'), key='status'), case)
+                return False
         if first is None:
             first = facts
         else:
@@ -194,8 +219,12 @@ def run_case(cs, ctx):
                 TAP.enabled = True
                 try:
                     kw = {}
-                    if limit is not None:
-                        kw['timeLimit'] = limit
+                    this_limit = limit
+                    if limit_mix:
+                        this_limit = rng.choice([None, 50.0, 1e-06, 1e-06])
+                        limits_used.append(this_limit)
+                    if this_limit is not None:
+                        kw['timeLimit'] = this_limit
                     if solve_kw_mode == 1:
                         kw.update(threads=1)
                     elif solve_kw_mode == 2:
@@ -226,7 +255,8 @@ def run_case(cs, ctx):
                     ctx.cnt('excluded_backend_returned_infeasible_point')
                     pending = None
                     return
-                pending = {'facts': {'n_solves': len(evs), 'ncons': [e['ncons'] for e in evs]}, 'nsolve': nsolve}
+                pending = {'facts': {'n_solves': len(evs), 'ncons': [e['ncons'] for e in evs]}, 'nsolve': nsolve,
+                           'tiny': bool(limit_mix and this_limit is not None and this_limit < 1e-3), 'limit': this_limit}
                 log.append(('solve', nsolve))
             else:
                 try:
